@@ -64,6 +64,7 @@ fn verdict(tb: &Table, line: &[String], allowed: &[Vec<OutTok>], cause_drift: &m
     let obs = parse::parse_with(&text, Some(tb));
     let mut hands = Vec::new();
     let mut ok = false;
+    let mut drift = false;
     let mut class = "mismatch";
     if obs.status == "hang" || obs.status == "panic" {
         class = if obs.status == "hang" { "hang" } else { "panic" };
@@ -76,9 +77,7 @@ fn verdict(tb: &Table, line: &[String], allowed: &[Vec<OutTok>], cause_drift: &m
             // command is executed).  That the two syntax errors have the same
             // cause is expected but not part of the property: counted as drift.
             let same_parse = obs.status == hand.status && obs.printed == hand.printed;
-            if same_parse && obs.err != hand.err {
-                *cause_drift += 1;
-            }
+            let same_cause = obs.err == hand.err;
             // origin of every word: only comparable when the parse succeeded
             // (after a syntax error the rest of the line is never tokenised)
             let mut same_words = true;
@@ -95,11 +94,21 @@ fn verdict(tb: &Table, line: &[String], allowed: &[Vec<OutTok>], cause_drift: &m
             if same_parse && same_words {
                 ok = true;
                 class = if obs.status == "ok" { "ok-parsed" } else { "ok-error" };
-                break;
+                if same_cause {
+                    drift = false;
+                    break;
+                }
+                drift = true; // keep looking for an allowed result with the same cause
             }
             if same_parse && !same_words {
                 class = "origin";
             }
+        }
+    }
+    if ok && drift {
+        *cause_drift += 1;
+        if std::env::var("C17_SHOW_DRIFT").is_ok() {
+            eprintln!("DRIFT {}", json!({"tb": table_json(tb), "line": line, "err": obs.err, "hand": hands}));
         }
     }
     let detail = json!({"text": text, "obs": obs.to_json(), "hand": hands});
@@ -293,19 +302,28 @@ fn judge(args: &[String]) -> i32 {
             continue;
         }
         let mut ok = false;
+        let mut drift = false;
         let mut hands = Vec::new();
         for a in s["res"].as_array().unwrap() {
             let toks = strs(a);
             let htext = render_line(&toks);
             let hand = parse::parse_with(&htext, None);
             let same = r["st"] == hand.status.as_str() && r["printed"] == hand.printed.as_str();
-            if same && r["err"] != hand.err.as_str() {
-                n_cause_drift += 1;
-            }
+            let same_cause = r["err"] == hand.err.as_str();
             hands.push(json!({"text": htext, "status": hand.status, "printed": hand.printed, "err": hand.err}));
             if same {
                 ok = true;
-                break;
+                if same_cause {
+                    drift = false;
+                    break;
+                }
+                drift = true;
+            }
+        }
+        if ok && drift {
+            n_cause_drift += 1;
+            if std::env::var("C17_SHOW_DRIFT").is_ok() {
+                eprintln!("DRIFT {}", json!({"tb": r["tb"], "line": r["line"], "err": r["err"], "hand": hands}));
             }
         }
         if ok {
